@@ -1,6 +1,7 @@
 import Driver.Util
 import MpcVerif.Model.GarblerProc
 import MpcVerif.Model.TweakAcc
+import MpcVerif.Model.StreamDef
 
 namespace Drv.C04
 open Mpc.GProc
@@ -31,6 +32,16 @@ def handleAcc (id0 kinds : String) : String :=
     | some ops => Mpc.renderAcc (Mpc.tweakUses Mpc.codeAcc ops id)
     | none => "bad-op"
 
+/-- `c04def def <n> <nIn> <gates>`: is every gate input of the stream a defined
+wire (`Model/StreamDef.lean`: `streamDefined`, proved equal to the `wfFrom`
+hypothesis of the streaming theorems)?  `<gates>` is the gate list of a real
+streaming session over one wire space of `n` wires whose first `nIn` are the
+session's input wires. -/
+def handleDef (n nIn gates : String) : String :=
+  match n.toNat?, nIn.toNat?, parseGates gates with
+  | some n, some nIn, some gs => Mpc.renderDef n nIn gs
+  | _, _, _ => "bad-op"
+
 /-- Line-protocol handler of property C04.
 
 `c04proc <early 0|1> <event> <event> …`: a history of a garbler process that
@@ -40,6 +51,7 @@ and whether its result loop decoded. -/
 def handle (args : List String) : String :=
   match args with
   | ["acc", id0, kinds] => handleAcc id0 kinds
+  | ["def", n, nIn, gates] => handleDef n nIn gates
   | early :: evs =>
     match evs.mapM parseEv with
     | some es =>
